@@ -43,6 +43,17 @@ package chain
 //@ func Auth.Actor
 //@   pure
 
+//@ func (*Transaction).PreExecute props C10
+//@   requires Rules.GetValidityWindow(r) >= 0 && timestamp + Rules.GetValidityWindow(r) <= MaxInt64
+//@   requires internalfees.wellFormed(feeManager)
+//@   loop 1 invariant 0 <= idx1 && idx1 <= len(t.Actions)
+//@   loop 1 invariant forall j int :: 0 <= j && j < idx1 ==> active(fst(Action.ValidRange(t.Actions[j], r)), snd(Action.ValidRange(t.Actions[j], r)), timestamp)
+//@   ensures err == nil ==> t.Base.ChainID == Rules.GetChainID(r)
+//@   ensures err == nil ==> t.Base.Timestamp % 1000 == 0 && t.Base.Timestamp >= timestamp && t.Base.Timestamp <= timestamp + Rules.GetValidityWindow(r)
+//@   ensures err == nil ==> len(t.Actions) <= Rules.GetMaxActionsPerTx(r)
+//@   ensures err == nil ==> forall j int :: 0 <= j && j < len(t.Actions) ==> active(fst(Action.ValidRange(t.Actions[j], r)), snd(Action.ValidRange(t.Actions[j], r)), timestamp)
+//@   ensures err == nil ==> active(fst(Auth.ValidRange(t.Auth, r)), snd(Auth.ValidRange(t.Auth, r)), timestamp)
+
 // ---- what every action and every balance handler may do to the view it is handed (ASSUMED for
 // implementations; they reach the view only through Insert/Remove/GetValue, whose contracts
 // compose to exactly this): the log only grows, earlier records stay, the representation
